@@ -477,3 +477,28 @@ package tcp
 //@   loop 1 invariant rcvOK(r)
 //@   loop 1 invariant sndOK(r.ep.snd)
 //@   modifies everything(), modset(NETGHOSTS), ghost(delivered)
+
+// Inbound segment for a TCP endpoint (C07): whatever the bytes are (the dispatcher has checked
+// that at least 20 are present), parsing and queueing for the protocol goroutine cannot panic.
+//@ func (*endpoint).HandlePacket props C07
+//@   requires e != nil && e.stack != nil && r != nil && len(vv.views) >= 1 && len(vv.views[0]) >= header.TCPMinimumSize && 0 <= vv.size && vv.size <= 1 << 40
+//@   modifies everything()
+
+//@ func (*endpoint).HandleControlPacket props C07
+//@   requires e != nil
+//@   modifies everything()
+
+// ---------------------------------------------------------------------------
+// C15 (parsers recover every option an encoder produced): for every combination of SYN options
+// the stack can send - MSS always, window scale, timestamps, SACK-permitted, in all the layouts
+// makeSynOptions produces - header.ParseSynOptions returns exactly what was encoded. One proof
+// per layout; the parser's loop is unrolled and the unwinding assertion shows 10 iterations
+// suffice.
+//@ func verifSynOptionsRoundTrip props C15 C03
+//@   split layout 0 7
+//@   inline_callee ParseSynOptions EncodeMSSOption EncodeNOP EncodeTSOption EncodeSACKPermittedOption EncodeWSOption AddTCPOptionPadding
+//@   unroll_calls * 10
+//@   requires mss != 0 && 0 <= ws && ws <= header.MaxWndScale
+//@   ensures result.MSS == mss && result.TS == (layout & 1 != 0) && result.SACKPermitted == (layout & 2 != 0)
+//@   ensures result.WS == ite(layout & 4 != 0, ws, -1)
+//@   ensures implies(layout & 1 != 0, result.TSVal == tsVal && implies(isAck, result.TSEcr == tsEcr))
